@@ -6,7 +6,10 @@ namespace CkbVerif.Indexer
 structure WFRollback2 (s : Store) (b : Block) : Prop extends WFAppend2 s b where
   freshLock : ∀ (sc : Script) (txi io : Nat), get s (.cellLock sc b.number txi io) = none
   freshTxLock : ∀ (sc : Script) (txi io : Nat) (t : IoType), get s (.txLock sc b.number txi io t) = none
-  freshConsumed : ∀ (op : OutPoint), get s (.consumed b.number op) = none
+  /-- only for inputs of the block that do NOT resolve: ConsumedOutPoint residue of a previously
+  rolled-back block of the same number (which `rollback` never deletes) is allowed -/
+  freshConsumed : ∀ (i : Nat) (tx : Tx) (op : OutPoint), b.txs[i]? = some tx → i ≠ 0 → op ∈ tx.inputs →
+    (∀ c, ¬ Res s b op c) → get s (.consumed b.number op) = none
   freshTx : ∀ tx ∈ b.txs, get s (.txHash tx.id) = none
   hdrBelow : HdrBelow s b.number
   lockInv : LockInv s
@@ -36,9 +39,12 @@ theorem consumed_spent2 (wf : WFRollback2 s b) (op : OutPoint) (c : Cell) (hs : 
     rw [mem_consumeOps]
     right; right; right; right; rfl
 
-theorem consumed_not_spent2 (wf : WFRollback2 s b) (op : OutPoint) (hns : ∀ c, ¬ Spent2 s b op c) :
+theorem consumed_not_spent2 (wf : WFRollback2 s b) (i : Nat) (tx : Tx) (op : OutPoint)
+    (htx : b.txs[i]? = some tx) (hi : i ≠ 0) (hop : op ∈ tx.inputs) (hnr : ∀ c, ¬ Res s b op c) :
     get (appendCore s b) (.consumed b.number op) = none := by
-  rw [get_appendCore_from0 _ (by intro _ _ _ h; cases h), ← wf.freshConsumed op]
+  have hns : ∀ c, ¬ Spent2 s b op c := by
+    rintro c ⟨_, _, _, _, _, _, hc⟩; exact hnr c hc
+  rw [get_appendCore_from0 _ (by intro _ _ _ h; cases h), ← wf.freshConsumed i tx op htx hi hop hnr]
   apply get_commit_untouched
   intro o ho hk
   rcases txsOpsFrom_shape wf.toWFAppend2 0 o ho with ⟨i', tx', ii', op', c', _, htx', hi', hop', hc', ho'⟩ |
@@ -145,8 +151,8 @@ theorem mem_rbTxOpsCore2 (wf : WFRollback2 s b) (i : Nat) (tx : Tx) (htx : b.txs
       · intro h; exact ⟨c, hc, h⟩
       · rintro ⟨c', hc', h⟩
         rw [res_unique wf.toWFAppend2 _ _ _ hc hc']; exact h
-    · rw [rbInputOps_none _ _ _ _ _ (consumed_not_spent2 wf op (by
-        rintro c ⟨_, _, _, _, _, _, hc⟩; exact hsp ⟨c, hc⟩))]
+    · rw [rbInputOps_none _ _ _ _ _ (consumed_not_spent2 wf i tx op htx hi (List.mem_of_getElem? hop)
+        (fun c hc => hsp ⟨c, hc⟩))]
       constructor
       · intro h; cases h
       · rintro ⟨c, hc, _⟩; exact absurd ⟨c, hc⟩ hsp
